@@ -32,6 +32,7 @@ CONSTANTS
     JoinSubscriber, \* FALSE = the code as it is.  TRUE = design variant: a pipeline
                     \*   stop waits until its subscriber has stored what it was handed
     Mutant,         \* "none" | "SubAhead" | "SkipLog" | "AdvanceOnFail" (negative controls)
+    LateAccepts,    \* TRUE: an Accept call in flight when its pipeline stops may still reach the exporter
     RecordHist      \* TRUE: hist records the schedule (use with VIEW ViewNoHist)
 
 VARIABLES
@@ -68,20 +69,18 @@ NoPipe == [st |-> "none", e |-> 0, last |-> 0, from |-> 0, to |-> 0, stopReq |->
 (* close(subscription) is waiting for mu; late = an Accept(lfrom..lto) call is in  *)
 (* flight although the pipeline goroutine is gone; pos = last id acknowledged to   *)
 (* this pipeline (or its start position); old = started before the last reset.    *)
-DeadEpoch == [sub |-> "idle", val |-> 0, open |-> FALSE, closing |-> FALSE,
-              late |-> FALSE, lfrom |-> 0, lto |-> 0, pos |-> 0, old |-> TRUE]
-
 Max(S) == IF S = {} THEN 0 ELSE CHOOSE x \in S : \A y \in S : y <= x
 Min2(a, b) == IF a <= b THEN a ELSE b
 
 Rec(r) == hist' = IF RecordHist THEN Append(hist, r) ELSE hist
 H(a, e, x, y) == [a |-> a, e |-> e, x |-> x, y |-> y]
 
-(* an epoch whose pipeline goroutine is gone, channel closed, subscriber idle and  *)
-(* no call in flight can never act again                                          *)
-Norm(f) == [e \in DOMAIN f |->
-              IF /\ ~f[e].open /\ ~f[e].closing /\ ~f[e].late /\ f[e].sub = "idle"
-                THEN DeadEpoch ELSE f[e]]
+(* An epoch whose pipeline goroutine is gone, channel closed, subscriber idle and  *)
+(* no call in flight can never act again: its record is normalised.               *)
+DeadEpoch == [sub |-> "idle", val |-> 0, open |-> FALSE, closing |-> FALSE,
+              late |-> FALSE, lfrom |-> 0, lto |-> 0, pos |-> 0, old |-> TRUE]
+Dead(r) == ~r.open /\ ~r.closing /\ ~r.late /\ r.sub = "idle"
+Norm(f) == [e \in DOMAIN f |-> IF Dead(f[e]) THEN DeadEpoch ELSE f[e]]
 
 Init ==
     /\ produced = 0 /\ persisted = 0
@@ -172,7 +171,7 @@ PipeTakeStop ==
     /\ JoinSubscriber => ep[pipe.e].sub = "idle"
     /\ mgr.pc = "wait"
     /\ mgr' = [mgr EXCEPT !.pc = "stopped"]
-    /\ ep' = IF pipe.st = "fetched"
+    /\ ep' = IF pipe.st = "fetched" /\ LateAccepts
                THEN [ep EXCEPT ![pipe.e].closing = TRUE, ![pipe.e].late = TRUE,
                                ![pipe.e].lfrom = pipe.from, ![pipe.e].lto = pipe.to]
                ELSE [ep EXCEPT ![pipe.e].closing = TRUE, ![pipe.e].pos = 0]
